@@ -623,6 +623,13 @@ pub(crate) fn update_chain_tip<P: consensus::Parameters>(
     // `ScanRange` uses an exclusive upper bound.
     let chain_end = new_tip + 1;
 
+    // If the chain tip is below the wallet birthday, every block up to the tip is below the
+    // birthday and there is nothing to add to the scan queue; the ranges starting at the
+    // birthday that are constructed below would be inverted.
+    if wallet_birthday.is_some_and(|birthday| chain_end < birthday) {
+        return Ok(());
+    }
+
     // Read the maximum height from each of the shards tables. The minimum across the pools gives
     // the start of a height range that covers the last incomplete shard of every pool, so that
     // none is left behind. The Ironwood pool is included: post-NU6.3 it is sparse, so its last
@@ -1232,6 +1239,30 @@ pub(crate) mod tests {
 
         let actual = suggest_scan_ranges(st.wallet().conn(), Ignored).unwrap();
         assert_eq!(actual, expected);
+    }
+
+    #[test]
+    fn update_chain_tip_below_wallet_birthday() {
+        for insert_prior_roots in [false, true] {
+            let (mut st, _, birthday, sap_active) = test_with_nu5_birthday_offset::<SaplingPoolTester>(
+                50,
+                26,
+                BlockHash([0; 32]),
+                insert_prior_roots,
+            );
+            let wallet_birthday: u32 = birthday.height().into();
+            let expected = vec![scan_range(sap_active..wallet_birthday, Ignored)];
+
+            // A chain tip anywhere between Sapling activation and the block before the wallet
+            // birthday leaves the scan queue unchanged.
+            for new_tip in [sap_active, wallet_birthday - 10, wallet_birthday - 2, wallet_birthday - 1] {
+                st.wallet_mut()
+                    .update_chain_tip(BlockHeight::from(new_tip))
+                    .unwrap();
+                let actual = suggest_scan_ranges(st.wallet().conn(), Ignored).unwrap();
+                assert_eq!(actual, expected);
+            }
+        }
     }
 
     #[test]
